@@ -21,9 +21,9 @@ OnOp(s, e) ==
                     !.drift = IF Has(Sc, "predicted") /\ s.nops + 1 <= Len(Sc.predicted) /\ (Sc.predicted[s.nops + 1] = "ok") # (e.ret = "ok") THEN @ + 1 ELSE @,
                     !.rebootPending = IF reqs # <<>> THEN FALSE ELSE @,
                     !.failsSinceReboot = IF failed THEN @ + 1 ELSE @],
-   cl |-> IF DiscoKind # "ok"
-          THEN << <<"disco_bad_reply_accepted", ~first \/ (failed /\ reqs = <<>>)>> >>
-          ELSE
+   cl |-> IF DiscoKind # "ok" /\ first
+          THEN << <<"disco_bad_reply_accepted", failed /\ reqs = <<>> >> >>
+          ELSE \* (after a refused discovery reply the next operation discovers again and is judged like any other)
           << <<"no_discovery_before_first_request", ~first \/ (e.first_wire = "probe" /\ e.probes >= 1)>>,
              <<"engine_id_not_used", \A i \in DOMAIN reqs : reqs[i].engine_ok>>,
              <<"context_engine_default", \A i \in DOMAIN reqs : reqs[i].ctx_ok>>,
